@@ -52,7 +52,7 @@
 
 #define EC_CURVE_CALC_BYTES(curve) (((curve)->m + 7) / 8)
 /* Double size + 1 digit. */
-#define EC_CURVE_CALC_BITS_DBL(curve)	(BN_DIGIT_BITS + (2 * (curve)->m))
+#define EC_CURVE_CALC_BITS_DBL(curve)	(BN_DIGIT_BITS + (2 * MAX((curve)->m, ((curve)->n.digits * BN_DIGIT_BITS))))
 
 
 #ifndef EC_USE_PROJECTIVE /* Affine point calculations. */
